@@ -17,6 +17,11 @@ TRUSTED = ["harness/c18.py (audit hook, tree hash) observes the OS effects; os.p
            "harness/c01.py encoder", "sampled correspondence"]
 ASSUMPTIONS = ["output directory exists and is writable", "each run of the tool is a fresh interpreter state for the riffxtract module (module is reloaded before each run)"]
 
+def gen_tables():
+    import gen_riff
+    return gen_riff.gen_riff_consts()
+
+
 HOSTILE = [b"../x", b"/etc", b"..\\x", b"C:\\a", b"\x00\x00\x00\x00", b"....", b"../.", b"a/b/", b"////", b"~/.b", b"..  ", b"  ..", b"CON ", b"*?<>", b"\xff\xfe/\x00"]
 
 
